@@ -249,6 +249,7 @@ func registerIntercepts(e *Engine) {
 	registerZzv(e)
 	registerFiles(e)
 	registerExecModel(e)
+	registerBoltModel(e)
 
 	// ---- logging / notifications: no-ops; Fatal panics (pterm's checkFatal) ----
 	for _, n := range []string{"SetDebugEnabled", "Print", "Printf", "Println", "Printfln", "Debug", "Success", "Info", "Warning",
